@@ -1,0 +1,43 @@
+//go:build verif
+
+// Verification hooks (build tag "verif"): exported access for the external
+// conformance harness. Not part of the product.
+
+package client
+
+import (
+	"net"
+
+	"github.com/energomonitor/bisquitt/util"
+)
+
+// VerifSetDial makes Dial use the given connection factory instead of the network.
+func (c *Client) VerifSetDial(f func() (net.Conn, error)) {
+	c.mockupDialFunc = f
+}
+
+// VerifState returns the current client state.
+func (c *Client) VerifState() util.ClientState {
+	return c.state.Get()
+}
+
+// VerifRegistered returns a copy of the registered topics map.
+func (c *Client) VerifRegistered() map[string]uint16 {
+	c.registeredTopicsLock.RLock()
+	defer c.registeredTopicsLock.RUnlock()
+	m := make(map[string]uint16, len(c.registeredTopics))
+	for k, v := range c.registeredTopics {
+		m[k] = v
+	}
+	return m
+}
+
+// VerifPendingIDs returns the message IDs with a stored transaction.
+func (c *Client) VerifPendingIDs() []uint16 {
+	return c.transactions.VerifIDs()
+}
+
+// VerifPendingTypes returns the packet types with a stored transaction.
+func (c *Client) VerifPendingTypes() []int {
+	return c.transactions.VerifTypes()
+}
